@@ -53,6 +53,26 @@ def maporder_across_processes(c):
 
 
 CONFIG = {
+    "C10": {
+        "profiles": BOTH,
+        "rule": "one evaluation = one program compiled and walked, or one execution under the trace monitor, or one injected instruction sequence executed; "
+                "distinct non-trivial = distinct sources whose top-level block contains at least one jump, and distinct injected sequences",
+        "floors": {"quick": {"_evaluations": 300000, "walker_blocks": 300000, "walker_jumps": 200000, "walker_nested_blocks": 100000, "trace_frames": 500000,
+                             "cond_jump_taken": 50000, "cond_jump_fallthrough": 50000, "injected_programs": 50000,
+                             "injected_outcome/err": 10000, "injected_outcome/val": 5000},
+                   "thorough": {"_evaluations": 3000000}},
+        "assumptions": ASSUME_COMMON + [
+            "'all paths' is obtained per emitted block by a structural walk (complete for that block because control flow is forward-only) plus dynamic confirmation on executed "
+            "paths; a compiler path that no generated program reaches emits nothing to walk",
+            "in-range backward jumps are not injected (the VM legitimately loops on them)"],
+        "technique": "runtime monitoring: structural invariant walk of every emitted block at a quiescent point (after compile), trace monitor over VM hook events "
+                     "(pc monotone, steps <= length, observed stack height == height predicted by the effect table), fault injection of instruction sequences through serde",
+        "level_text": "Every program emitted for the corpus and for control-flow-heavy generated sources (nested ||, &&, ?:, match, calls, macros, f-strings) is walked: jumps forward "
+                      "and inside [i+1, len], no underflow, equal heights at joins, exactly one value at the end, recursively for nested blocks. Each program then runs under four "
+                      "binding sets that flip conditions while the hook monitor checks every step against the walker's effect table. Random instruction sequences with out-of-range, "
+                      "huge and negative jump distances and starved stacks must end in a value or an error with every fetch inside the block. Exploration, not a proof about the compiler.",
+        "level_note": "trusts the effect table (cross-validated dynamically against the VM on every executed step) and the hook events",
+    },
     "C18": {
         "profiles": BOTH,
         "rule": "one evaluation = one source compiled (span check), one slice recompiled or one corrupted source compiled (error location); distinct non-trivial = "
